@@ -258,22 +258,27 @@ def check(run):
     # pointer and the size class agreeing) is run here for the char buffer and owned by this property as well: a copy, an
     # assignment or an allocate() that leaves the pointer and the size class disagreeing makes later copies read the wrong array
     from . import c05, own
-    Lc = own.buffer_layout(m, 'char')
-    run.need(Lc is not None, 'layout of ST::buffer<char> not recognised')
+    # (the wide buffers as well: to_utf16 / to_utf32 / to_wchar / to_latin_1 return them, and "every string or buffer it returns owns
+    # its own storage" speaks of those results too - their small-buffer limit differs from the char buffer's)
     sub = type(run)(run.prop, run.tier)
     seen = set()
-    k = 0
-    for f in c05.owner_methods(m, F, E, Lc):
-        if f.name in seen:
-            continue
-        seen.add(f.name)
-        c05.analyse_method(sub, m, F, E, Lc, f)
-        k += 1
+    k = kc = 0
+    for elt in c05.ELTS:
+        Lc = own.buffer_layout(m, elt)
+        run.need(Lc is not None, 'layout of ST::buffer<%s> not recognised' % elt)
+        for f in c05.owner_methods(m, F, E, Lc):
+            if f.name in seen:
+                continue
+            seen.add(f.name)
+            c05.analyse_method(sub, m, F, E, Lc, f)
+            k += 1
+            kc += (elt == 'char')
     for o in sub.obs:
         o = dict(o)
         o['rule'] = 'R04.9'
         run.obs.append(o)
-    run.floor('members of ST::buffer<char> under the owner invariant', k, 11)
+    run.floor('members of ST::buffer<char> under the owner invariant', kc, 11)
+    run.floor('members of the four buffer types under the owner invariant', k, 44)
     # positive control for the expected-zero rule R04.8
     import os
     from .. import facts as factsmod, effects as effmod, frontend
